@@ -1,6 +1,7 @@
 import TracklibVerif.Model.Cinematics
 import TracklibVerif.Model.CinematicsTab
 import TracklibVerif.Model.CinematicsCoords
+import TracklibVerif.Model.CinematicsTabK
 import TracklibVerif.Drv.Util
 /-! Driver handler for C17. Three commands:
 
@@ -21,6 +22,11 @@ import TracklibVerif.Drv.Util
               the track operated on; res = `-` | `n<v>` | `c<v,…>` | `b0|b1` | `i<ids>` | `err:<kind>`; heap = observations
               `x,y,z,Y,M,D,h,m,s,ms,len(features)` joined by `;`), then one block `T<ids>~names~columns` per track.
      mode q : exact rationals; `bad-request` unless every distance a computation takes is the root of a rational square
+
+  worldc <cls N|G|X> <pool> <ops>    the same histories on a pool of observations whose position objects are of class `cls`
+     (`Model/CinematicsTabK.lean`, `stepK` with `clsKernel`), at `Float`; pool coordinates are `getX(),getY(),getZ()` of the
+     class (E,N,U / lon°,lat°,hgt / X,Y,Z); `L` (Track.length) is not modelled for these pools (`bad-request`); the refusal of
+     `Obs.distance2DTo` is printed `err:refused`, the missing `ECEFCoords.distance2DTo` `err:attr`
 
 
   run <mode f|q> <xs> <ys> <ts> <feats> <ops>
@@ -181,13 +187,21 @@ def wop? (rd : String → Option α) (s : String) : Option (WOp (Option α)) :=
   | ["et", k, i, field, v] => match k.toNat?, i.toNat?, v.toInt? with | some k, some i, some v => some (.setTime k i field v) | _, _, _ => none
   | _ => none
 
+/-- the `Err` values the class pools (`worldc`) use for `raise CoordTypeError` / `AttributeError` (`clsKernel`'s `eRef`, `eAttr`) -/
+def eRefused : Err := .type
+def eAttr : Err := .key
+
 def showWErr : Err → String
   | .reserved | .empty | .unknown => "err:AnalyticalFeatureError"
   | .key => "err:key" | .index => "err:index" | .value => "err:value" | .type => "err:type" | .exit => "err:exit"
   | .unsupported => "unsupported"
 
-def showWRet (sh : α → String) : Except Err (WRet (Option α)) → String
-  | .error e => showWErr e
+/-- class pools: `eRefused` / `eAttr` are the refusal and the missing method -/
+def showCErr (e : Err) : String :=
+  if e == eRefused then "err:refused" else if e == eAttr then "err:attr" else showWErr e
+
+def showWRet (she : Err → String) (sh : α → String) : Except Err (WRet (Option α)) → String
+  | .error e => she e
   | .ok .none => "-"
   | .ok (.num v) => "n" ++ showV sh v
   | .ok (.col l) => "c" ++ showList (showV sh) l
@@ -211,7 +225,8 @@ def geometric : WOp (Option α) → Bool
   | .absCurv _ | .speed _ | .speedMethod _ | .speedAF _ | .dsAF _ | .length _ | .curvAbs _ => true
   | _ => false
 
-def runWorld (g : GOps (Option α)) (sh : α → String) (ok : World (Option α) → Bool) :
+def runWorld (step : WOp (Option α) → M (World (Option α)) (WRet (Option α))) (she : Err → String)
+    (g : GOps (Option α)) (sh : α → String) (ok : World (Option α) → Bool) :
     List (WOp (Option α)) → World (Option α) → List String → Option (World (Option α) × List String)
   | [], w, acc => some (w, acc.reverse)
   | op :: ops, w, acc =>
@@ -220,19 +235,20 @@ def runWorld (g : GOps (Option α)) (sh : α → String) (ok : World (Option α)
     else if geometric op && !(ok wk) then none
     else
       let pre := showTable sh g wk
-      match stepW g op w with
+      match step op w with
       | (.error .unsupported, _) => none
       | (r, w') =>
         let wk' := { w' with cur := op.track }
-        runWorld g sh ok ops w' (s!"{showWRet sh r}~{pre}~{showTable sh g wk'}~{showHeap sh w'}" :: acc)
+        runWorld step she g sh ok ops w' (s!"{showWRet she sh r}~{pre}~{showTable sh g wk'}~{showHeap sh w'}" :: acc)
 
-def world (g : GOps (Option α)) (rd : String → Option α) (sh : α → String) (ok : World (Option α) → Bool)
+def world (step : WOp (Option α) → M (World (Option α)) (WRet (Option α))) (she : Err → String)
+    (g : GOps (Option α)) (rd : String → Option α) (sh : α → String) (ok : World (Option α) → Bool)
     (pool ops : String) : String :=
   match (splitTok pool ';').mapM (obs? rd), (splitTok ops ';').mapM (wop? rd) with
   | some H, some O =>
     if H.isEmpty then "bad-request"
     else
-      match runWorld g sh ok O { heap := H, trks := [⟨List.range H.length, []⟩], cur := 0 } [] with
+      match runWorld step she g sh ok O { heap := H, trks := [⟨List.range H.length, []⟩], cur := 0 } [] with
       | none => "bad-request"
       | some (w, blocks) =>
         let tracks := (List.range w.trks.length).map fun k =>
@@ -257,9 +273,19 @@ def squaresOK (w : TV.CinTab.World (Option Rat)) : Bool :=
 def handle (cmd : String) (args : List String) : String :=
   match cmd, args with
   | "world", [mode, pool, ops] =>
-    if mode == "f" then world (TV.CinTab.optG Float.sqrt Float.ofNat Float.isNaN) float? showFloat (fun _ => true) pool ops
-    else if mode == "q" then world (TV.CinTab.optG ratSqrt (fun n => (n : Rat)) (fun _ => false)) rat? showRat squaresOK pool ops
+    if mode == "f" then
+      let g := TV.CinTab.optG Float.sqrt Float.ofNat Float.isNaN
+      world (TV.CinTab.stepW g) showWErr g float? showFloat (fun _ => true) pool ops
+    else if mode == "q" then
+      let g := TV.CinTab.optG ratSqrt (fun n => (n : Rat)) (fun _ => false)
+      world (TV.CinTab.stepW g) showWErr g rat? showRat squaresOK pool ops
     else "bad-request"
+  | "worldc", [cls, pool, ops] =>
+    match cls? cls with
+    | none => "bad-request"
+    | some c =>
+      let g := TV.CinTab.optG Float.sqrt Float.ofNat Float.isNaN
+      world (TV.CinTabK.stepK g (TV.CinTabK.clsKernel FT eRefused eAttr c)) showCErr g float? showFloat (fun _ => true) pool ops
   | "coords", [cls, xs, ys, zs, ts, feats, ops] => coords cls xs ys zs ts feats ops
   | "run", [mode, xs, ys, ts, feats, ops] =>
     if mode == "f" then run Float.sqrt float? showFloat (fun _ => true) xs ys ts feats ops
